@@ -118,6 +118,26 @@ P = {
     ),
 }
 
+# rules added in the third session (round-5 seeds, blind-spot map): appended to the claim text / technique
+ADD = {
+    "C01": ("; load-time event filters evaluated on all weak orderings against the simulated span (t0, t1] (R10); stored event times reach the integration event un-quantised and in their own slot (R11)", "; weak-ordering evaluation of load-time filters; provenance of event times without lossy operators"),
+    "C02": ("; the reported measurement components are the exact recoveries of the spherical model that defines the SEZ vector - quadrant agreement of the azimuth, elevation, range and range rate (R11); measurement noise is drawn with a factor F satisfying F F^T = R (R12)", "; rational-function normal forms and quadrant (atan2 slot / sign) agreement; matrix-factor convention table"),
+    "C04": ("; RSW / NTW triads are orthonormal and right-handed for every state, decided algebraically from how the rows are built (R9); the spherical model: documented position rows, velocity rows equal to their formal time derivative, and every angle recovery (cartesian2spherical, getAzimuth / getElevation / getRange / getRangeRate) agrees with it slot by slot and quadrant by quadrant, quotients compared by cross multiplication (R10); no conversion function hands back a result stored for another argument - memo soundness (R11)", "; abstract vector algebra of basis triads; rational-function normal forms with formal differentiation; memo-soundness analysis of state that outlives a call"),
+    "C05": ("; memo soundness of the time conversions (R7); the step count, the clock tick and the agents' step all come from the configured physics step, unmodified (R8)", "; memo-soundness analysis; provenance agreement of the step size across scenario, clock and agents"),
+    "C06": ("; a matrix rebuilt from svd / eigh / eig outputs uses each factor in the orientation the decomposition returns it (R7)", "; decomposition-output orientation table"),
+    "C08": ("; every tasked sensor-target pair is handed to a task-execution job: row-wise index sets of the decision matrix, emptiness test by size not by truth of the indices, own target, all tasked sensors (R6)", "; index-kind / mask-kind discipline of the job-construction loop"),
+    "C09": ("; the epoch-key sources may be cached only coherently: every writer of a cached input resets the cache (R10)", "; lazy-cache coherence over the class hierarchy"),
+    "C10": ("; nothing assigns class-level or module-level state of dynamics.* / physics.* from run-time arguments (R8)", "; package-wide scan of class-object and module-global writes with parameter dependence"),
+    "C11": ("; shared Earth-orientation rules: reduction-parameter transposes and the sidereal-rotation siblings (R8, R9)", ""),
+    "C12": ("; memo soundness of the element conversions (R5); coe2eqe equals the equinoctial definition on every path as a function of its parameters, eqe2coe recovers the angles with the sine-carrying component first (R6)", "; path-wise symbolic return expressions compared as rational functions; memo-soundness analysis"),
+    "C13": ("; memo soundness of the force-model support modules (R6); the rotation to the Earth-fixed frame is the shared sidereal rotation over a correct day-of-year (R7, R8)", "; memo-soundness analysis"),
+    "C14": ("; memo soundness of the visibility helpers (R7); every sensor class applies each visibility predicate with its documented sense before reporting a target visible (R8-R10, shared with C02)", "; memo-soundness analysis"),
+    "C15": ("; every registered thrust law puts the configured acceleration in slots [:3] on its documented NTW / inertial axis with the documented sign cases (R5); ntw2eci is the orthonormal right-handed NTW triad of the state (R6); configured burn times reach the integration event un-quantised, start and end in their own slots (R7)", "; path-wise return expressions of the thrust laws; abstract vector algebra of the NTW triad; provenance of event times without lossy operators"),
+    "C16": ("; the angle-kind discipline (R1) also covers the multiple-model filters' compiled innovation", ""),
+    "C18": ("; the stacking function is evaluated abstractly over row / column stacks and weights: on every path it is the weighted mean over the MODELS, never a product that is shape-correct only when the model count equals the state dimension (R4)", "; abstract shape evaluation of weighted means"),
+    "C20": ("; the forward spherical model and the measurement recoveries it is inverted against (R5, shared with C04.R10)", "; rational-function normal forms and quadrant agreement"),
+}
+
 NA_PENDING = "check not built yet in this session (design in DESIGN.md section 4); will be claimed once its rule module exists"
 
 
@@ -137,9 +157,9 @@ def main():
                     evidence_file=f"/verif/evidence/{pid}.json",
                     replay_cmd_template=f"./check {pid} --replay {{path}}",
                     engine="rsa",
-                    level_claimed=dict(category="other", text=d["text"], design_ref=d["ref"]),
+                    level_claimed=dict(category="other", text=d["text"] + (" Added later" + ADD[pid][0] + "." if pid in ADD else ""), design_ref=d["ref"]),
                     level_note=COMMON_NOTE + (" " + d["note"] if d.get("note") else ""),
-                    technique=d["technique"],
+                    technique=d["technique"] + (ADD[pid][1] if pid in ADD else ""),
                 )
             )
         else:
